@@ -212,6 +212,19 @@ def sign(x):
     return _np.sign(x)
 
 
+def isfinite(x, *a, **kw):
+    """symbolic reals / complex numbers are finite by construction"""
+    if is_sym(x):
+        return True
+    if isinstance(x, _np.ndarray) and x.dtype == object:
+        out = _np.empty(x.shape, dtype=bool)
+        fi, fo = x.reshape(-1), out.reshape(-1)
+        for i in range(fi.shape[0]):
+            fo[i] = True if is_sym(fi[i]) else bool(_np.isfinite(fi[i]))
+        return out
+    return _np.isfinite(x, *a, **kw)
+
+
 def isscalar(x):
     if is_sym(x):
         return True
@@ -359,7 +372,7 @@ class Facade:
     """The object bound to `np` in the shadow modules."""
     _over = dict(zeros=zeros, ones=ones, array=array, sqrt=sqrt, log=log_dispatch, exp=exp,
                  cos=cos, sin=sin, abs=_abs, absolute=_abs, angle=angle, conj=conj,
-                 conjugate=conj, sign=sign, isscalar=isscalar, linalg=linalg,
+                 conjugate=conj, sign=sign, isscalar=isscalar, isfinite=isfinite, linalg=linalg,
                  copy=copy, arange=arange)
 
     def __getattr__(self, n):
